@@ -362,6 +362,10 @@ pub fn gen_programs() -> Vec<String> {
         }
         v.push(format!("aux :- in(X){c}. out(X) :- in(X), not aux."));
     }
+    // several arithmetic terms sharing variables
+    for f in ["out(X+Y) :- in(X), in(Y).", "out(X) :- in(X), in(Y+1), in2(X+Y).", "out0 :- in(W), in(X+1), in2(Y+W).", "out0 :- in(W), in(X+1), in2(X+W).", "out(X) :- in(X), in(X+1), not in2(Y+X), in2(Y)."] {
+        v.push(f.to_string());
+    }
     for f in ["out(1).", "out(0..1).", "out(a). out(X) :- in(X).", "out0.", "{out0}.", "out(X) :- in(X), not aux(X).", "out(X) :- in(X), aux.", "out0 :- not aux. out(X) :- in(X)."] {
         v.push(f.to_string());
     }
